@@ -44,8 +44,8 @@ def prop(pid, driver, design, gens=('GenArith.v', 'GenLoops.v'), eio=False):
 
 
 prop('C01', 'c01', '4 (C01)', gens=('GenArith.v', 'GenLoops.v', 'GenSerMethods.v', 'GenDeMethods.v'))
-prop('C02', 'c02', '4 (C02)', gens=('GenArith.v', 'GenLoops.v', 'GenSerMethods.v'))
-prop('C03', 'c03', '4 (C03)', gens=('GenArith.v', 'GenLoops.v', 'GenDeMethods.v'))
+prop('C02', 'c02', '4 (C02)', gens=('GenArith.v', 'GenLoops.v', 'GenSerMethods.v', 'GenErrorImpls.v'))
+prop('C03', 'c03', '4 (C03)', gens=('GenArith.v', 'GenLoops.v', 'GenDeMethods.v', 'GenErrorImpls.v'))
 prop('C04', 'c04', '4 (C04)', gens=('GenArith.v', 'GenLoops.v', 'GenPtrCode.v'))
 prop('C05', 'c05', '4 (C05)', gens=('GenArith.v', 'GenLoops.v', 'GenPtrCode.v', 'GenSerMethods.v', 'GenStorages.v'))
 prop('C06', 'c06', '5 (C06)', gens=('GenArith.v', 'GenLoops.v', 'GenModifiers.v', 'GenEntryPoints.v', 'GenSerEntry.v'))
@@ -58,7 +58,7 @@ prop('C12', 'c12', '6 (C12)', gens=('GenArith.v', 'GenMaxSize.v', 'GenDeriveMaxS
 prop('C13', 'c13', '6 (C13)', gens=('GenArith.v', 'GenFixint.v'))
 prop('C14', 'c14', '7 (C14)', gens=('GenSchemaDecl.v', 'GenSchemaImpls.v', 'GenDeriveSchema.v'))
 prop('C15', 'c15', '7 (C15)', gens=('GenSchemaDecl.v',))
-prop('C16', 'c16', '7 (C16)', gens=('GenSchemaDecl.v', 'GenHashTags.v', 'GenArith.v'))
+prop('C16', 'c16', '7 (C16)', gens=('GenSchemaDecl.v', 'GenHashTags.v', 'GenArith.v', 'GenKeyFns.v'))
 prop('C17', 'c17', '8 (C17)', gens=('GenArith.v', 'GenLoops.v', 'GenPanicArms.v', 'GenDynArms.v', 'GenDynComposite.v', 'GenDynHelpers.v'))
 prop('C18', 'c18', '8 (C18)', gens=('GenArith.v', 'GenLoops.v', 'GenPanicArms.v', 'GenDynArms.v', 'GenDynComposite.v', 'GenDynHelpers.v'))
 prop('C19', 'c19', '7 (C19)', gens=('GenFmt.v', 'GenPanicArms.v', 'GenFnTemplates.v'))
